@@ -492,6 +492,7 @@ func runC10(c *Ctx) {
 		}
 		c10History(c, "session", p, ref, p0dump, cfg0, lines, inProc, 60, &st)
 	}
+	c10RunShapes(c, &st)
 	c10RunSrc(c, fields, &st)
 	c10RunE2E(c, fields, &st)
 	c.Extra["reports"] = st.reports
